@@ -1094,6 +1094,100 @@ def laws_stream(R: Run, ops, cxE):
             R.oracle(ok, "view-law-" + name, H.case_of("laws", g, what), f"{name}: {what} differ on {g}", sig="view-law|" + name)
 
 
+# ------------------------------------------------------------------ M. final increment: qr2sample exactly, footprint plan, units, non-index objects
+def final_stream(R: Run, ops, cxE):
+    H = _H()
+    from odc.geo import geom as G
+    GB, Affine, rng = ops.GB, ops.Affine, R.rng
+    # --- qr2sample against the model of its float arithmetic (float32 index x double constants, fmod, scale in float32)
+    for it in range(R.pick(40, 400)):
+        ny, nx = rng.randint(1, 300), rng.randint(1, 300)
+        g = GB.GeoBox((ny, nx), Affine(2.0, 0, 100.0, 0, -2.0, 50.0), None)
+        n = rng.choice([1, 2, 5, 17])
+        off = rng.choice([0, 0, 1, 3, 17, 1000, 2**20])
+        pad = rng.choice([None, None, 0.0, 0.25, 0.5, 1.0, float(min(nx, ny)) / 4 if min(nx, ny) % 4 == 0 else 0.5])
+        if pad is not None and 2 * pad > min(nx, ny):
+            pad = None
+        R.corr(f"c02 qr2 {H.enc_gb(g)} {n} {'N' if pad is None else frac_s(pad)} {off}",
+               lambda: list_s([f"{frac_s(p.coords[0][0])};{frac_s(p.coords[0][1])}" for p in g.qr2sample(n, padding=pad, offset=off).geoms]),
+               sig="qr2sample-exact|" + ("nopad" if pad is None else "pad"))
+    # --- the plan of footprint(): buffer distance, densification step, same-CRS shortcut (interposition, see accessor_stream)
+    orig_buffer, orig_to_crs = G.Geometry.buffer, G.Geometry.to_crs
+    for it in range(R.pick(200, 1000)):
+        g, cls = H.gen_gbox_exact(rng, GB, Affine, nmax=32)
+        Af = H.fa(H.aff_of(g))
+        st = abs(Af[1]) < F(1e-10) and abs(Af[3]) < F(1e-10)
+        if g.crs is None or not st or not H.narrow(tuple(H.aff_of(g))[:6], 30):
+            continue
+        buf = rng.choice([0, 1, 2, 0.5, 3.0])
+        npoints = rng.choice([1, 2, 4, 16, 64])
+        same = rng.random() < 0.5
+        dst = g.crs if same else [c for t, c in H.CRS_TAGS.items() if c is not None and c != str(g.crs).upper()][0]
+        bb = [F(v) for v in g.boundingbox.bbox]
+        span = max(bb[2] - bb[0], bb[3] - bb[1])
+        if (F(span) / npoints) != F(float(span) / npoints):
+            continue
+        seen = {}
+
+        def bf(self, distance, *a, **k):
+            seen["buffer"] = distance
+            return orig_buffer(self, distance, *a, **k)
+
+        def tc(self, crs, resolution=None, *a, **k):
+            seen["resolution"] = resolution
+            seen["same"] = (self.crs == crs)
+            return self
+        G.Geometry.buffer, G.Geometry.to_crs = bf, tc
+        try:
+            g.footprint(dst, buffer=buf, npoints=npoints)
+        except Exception:  # pylint: disable=broad-except
+            seen.clear()
+        finally:
+            G.Geometry.buffer, G.Geometry.to_crs = orig_buffer, orig_to_crs
+        if "resolution" not in seen or (buf != 0 and "buffer" not in seen):
+            R.count("footprint-plan:not-intercepted")
+            continue
+        d = "N" if seen.get("buffer", 0) == 0 and buf == 0 else frac_s(seen["buffer"])
+        R.corr(f"c02 fplan {H.enc_gb(g)} 1 1 {H.crs_tag(dst)} {frac_s(buf)} {npoints}",
+               lambda: f"{d} {frac_s(seen['resolution'])} {'T' if seen['same'] else 'F'}", sig="footprint-plan|" + ("same-crs" if same else "other-crs"))
+    # --- units of coordinates: pure dispatch over the kind of CRS and pyproj's axis info
+    import pyproj
+    for tag, name in H.CRS_TAGS.items():
+        g = GB.GeoBox((3, 4), Affine(2.0, 0, 100.0, 0, -2.0, 50.0), name)
+        if name is None:
+            k, uy, ux = "N", "-", "-"
+        else:
+            pc = pyproj.CRS.from_user_input(name)
+            k = "G" if pc.is_geographic else "P"
+            by_dir = {ax.direction: ax.unit_name for ax in pc.axis_info}
+            uy, ux = by_dir.get("north", by_dir.get("south", "-")), by_dir.get("east", by_dir.get("west", "-"))
+        R.corr(f"c02 cunits {H.enc_gb(g)} {k} {uy.replace(' ', '_')} {ux.replace(' ', '_')}",
+               lambda: " ".join(str(c.units).replace(" ", "_") for c in g.coordinates.values()), sig="coords-units|" + k)
+        try:
+            got = tuple(str(c.units) for c in g.coordinates.values())
+            want = ("1", "1") if k == "N" else ("degrees_north", "degrees_east") if k == "G" else (uy, ux)
+            R.oracle(got == want, "coords-units", H.case_of("cunits", g, k), f"units of coordinates {got}; rows first, expected {want}",
+                     sig="coords-units|" + k)
+        except Exception as e:  # pylint: disable=broad-except
+            R.oracle(False, "coords-units", H.case_of("cunits", g, k), f"{type(e).__name__}: {e}")
+    # --- objects that are not index-like: described by (len, is a Sequence, entries slice-like)
+    import collections.abc as abc
+    g = GB.GeoBox((10, 20), Affine(2.0, 0, 100.0, 0, -2.0, 50.0), "EPSG:3857")
+    objs = {"np.int64": np.int64(3), "float": 3.0, "None": None, "Ellipsis": Ellipsis, "str0": "", "str1": "a", "str2": "ab", "str3": "abc",
+            "ndarray2": np.arange(2), "ndarray3": np.arange(3), "set2": {1, 2}, "dict2": {1: 2, 3: 4}, "tuple-of-str": ("a", "b"),
+            "tuple-of-float": (1.0, 2.0), "list1-str": ["a"], "tuple-none": (None, None), "bytes2": b"ab", "bytes1": b"a", "range2": range(2),
+            "tuple3-str": ("a", "b", "c"), "complex": 1j, "object": object()}
+    for name, o in objs.items():
+        try:
+            ln = len(o)
+        except TypeError:
+            ln = None
+        sq = isinstance(o, abc.Sequence)
+        sl = bool(ln) and sq and all(isinstance(e, (int, slice)) for e in o)
+        R.corr(f"c02 giO {H.enc_gb(g)} {'N' if ln is None else ln} {'T' if sq else 'F'} {'T' if sl else 'F'}",
+               lambda: (g[o], "ok")[1], sig="getitem-other|" + name)
+
+
 def glue_stream(R: Run, ops, cxE, cxF):
     shape_stream(R, ops, cxE)
     zoom_to_stream(R, ops, cxE)
@@ -1109,6 +1203,7 @@ def glue_stream(R: Run, ops, cxE, cxF):
     crs_kind_stream(R, ops, cxE)
     qr2sample_stream(R, ops, cxE)
     laws_stream(R, ops, cxE)
+    final_stream(R, ops, cxE)
 
 
 # ------------------------------------------------------------------ replay of the glue oracles
